@@ -132,10 +132,13 @@ impl AwsChunkedStream {
                     prev_signature: seed_signature,
                 };
 
+                let mut total_size: usize = 0;
+
                 loop {
                     let meta = {
                         match Self::read_meta_bytes(body.as_mut(), prev_bytes, &mut buf).await {
-                            None => break,
+                            // the transport ended before the final (zero-length) chunk
+                            None => return Err(AwsChunkedStreamError::Incomplete),
                             Some(Err(e)) => return Err(AwsChunkedStreamError::Underlying(e)),
                             Some(Ok(remaining_bytes)) => prev_bytes = remaining_bytes,
                         }
@@ -160,6 +163,19 @@ impl AwsChunkedStream {
                     match check_signature(&ctx, meta.signature, &data) {
                         None => return Err(AwsChunkedStreamError::SignatureMismatch),
                         Some(signature) => ctx.prev_signature = signature,
+                    }
+
+                    total_size = total_size.saturating_add(meta.size);
+                    if total_size > decoded_content_length {
+                        return Err(AwsChunkedStreamError::FormatError);
+                    }
+
+                    if meta.size == 0 {
+                        // the final chunk: the upload is complete only if it totals the declared length
+                        if total_size != decoded_content_length {
+                            return Err(AwsChunkedStreamError::Incomplete);
+                        }
+                        break;
                     }
 
                     for bytes in data {
